@@ -94,6 +94,30 @@ def check_substitution(sk, lang, tier, found, stats):
         if cv.term(r) != t or r != it:
             rec(found, 'empty-substitution-not-identity', rsub.abstract(t), sk, lang, t, rsub.show(cv.term(r)))
         stats['empty_substitutions'] = stats.get('empty_substitutions', 0) + 1
+    # open patterns with nested wildcards substituted by ground maps
+    from src.ir import types as tp2
+    X = tp2.TypeParameter('X', tp2.Invariant, None)
+    Xt = ('v', 'X', None)
+    ones = [n for n, ps, _ in sk.classes if len(ps) == 1]
+    for c1 in ones:
+        for c2 in ones:
+            for pat in (('c', c1, (('out', ('c', c2, (('t', Xt),))),)), ('c', c1, (('in', ('c', c2, (('t', Xt),))),)),
+                        ('c', c1, (('t', ('c', c2, (('out', Xt),))),)), ('c', c1, (('t', ('c', c2, (('t', Xt),))),))):
+                try:
+                    ipat = conv(pat, {'X': X})
+                except Exception:  # noqa
+                    continue
+                for g in level0[:5]:
+                    try:
+                        r = tp.substitute_type(ipat, {X: conv(g)})
+                    except Exception as e:  # noqa
+                        rec(found, 'substitute-raises', type(e).__name__, sk, lang, pat, str(e)[:120])
+                        continue
+                    stats['ground_substitutions'] = stats.get('ground_substitutions', 0) + 1
+                    want = subst_args(pat, {'X': ('t', g)})
+                    if cv.term(r) != want:
+                        rec(found, 'ground-substitution-wrong', 'pattern %s' % rsub.abstract(pat), sk, lang, pat,
+                            'got %s expected %s' % (rsub.show(cv.term(r)), rsub.show(want)))
     # open types over the class parameters substituted by ground maps
     for name, params, supers in sk.classes:
         if not params:
